@@ -48,8 +48,9 @@ def toLower (s : Str) : Str := s.map toLowerChar
 /-- `ircutils.strEqual` -/
 def strEqual (a b : Str) : Bool := toLower a == toLower b
 
-/-- `ircdb.isCapability`: `len(capability.split(None, 1)) == 1` -/
-def isCapability (s : Str) : Bool := (splitNone1 s).length == 1
+/-- `ircdb.isCapability`: `capability.split() == [capability]` — a single word: not empty and
+no blank anywhere (`C03.isCapability_eq_splitWs` in Lemmas ties this to `Py.splitWs`). -/
+def isCapability (s : Str) : Bool := !s.isEmpty && s.all (fun c => !isSpace c)
 
 /-- `ircutils.isChannel(s)` with the default `chantypes`/`channellen` -/
 def isChannel (s : Str) : Bool :=
@@ -449,7 +450,7 @@ def Db.channelStage (db : Db) (u : User) (ch c : Str) (fl : Flags) : R Bool :=
     | .ok true => chan.checkCapability c
     | .ok false =>
       if !fl.ignoreDefaultAllow then .ok (applyAnti c chan.defaultAllow)
-      else .ok false
+      else .ok (applyAnti c false)
 
 /-- global stage for a recognised user -/
 def Db.globalsKnown (db : Db) (cap : Str) (ignoreDefaultAllow : Bool) : R Bool :=
@@ -538,6 +539,24 @@ def putChannel : List (Str × Channel) → Str → Channel → List (Str × Chan
 /-- `channels.setChannel(ch, c)` -/
 def Db.setChannel (db : Db) (ch : Str) (c : Channel) : Db :=
   { db with channels := putChannel db.channels (chanKey ch) c }
+
+/-- `conf.supybot.capabilities.setValue(v)` (`DefaultCapabilities.setValue` without
+`--allow-default-owner`): build the CapabilitySet, then add `-owner` unless it is literally an
+element (plain set membership).  An assertion while building leaves the value unchanged. -/
+def Db.setDefaults (db : Db) (v : List Str) : R Db :=
+  match CapSet.ofList v with
+  | .error e => .error e
+  | .ok s =>
+    if antiOwnerS ∈ s then .ok { db with defaults := s }
+    else match CapSet.add s antiOwnerS with
+      | .error e => .error e
+      | .ok s' => .ok { db with defaults := s' }
+
+/-- `conf.supybot.capabilities.registeredUsers.setValue(v)` -/
+def Db.setRegistered (db : Db) (v : List Str) : R Db :=
+  match CapSet.ofList v with
+  | .error e => .error e
+  | .ok s => .ok { db with registered := s }
 
 /-- the database of a freshly configured bot: no users, no channels, the shipped defaults -/
 def Db.initial : Db :=
